@@ -61,6 +61,8 @@ structure Article where
   entName : List Nat
   entOwner : List Nat
   entMode : UInt8
+  /-- `Modified` of the entry found (`Time4`): the article file's mtime at the last comment / edit, 0 if never touched -/
+  entModified : Int
   /-- the article file exists (`os.Stat`) -/
   fileExists : Bool
   deriving DecidableEq, Repr, Inhabited
